@@ -551,9 +551,9 @@ theorem verifyWithChallenge_true_iff (o : SigOracle) (kid : String) (pk : Public
           rw [hn] at hnu
           exact absurd (Option.some.inj hnu).symm hne
 
-theorem unitModN_iff (c n : Int) : unitModN c n = true ↔ 0 < c ∧ c < n ∧ Int.gcd c n = 1 := by
+theorem unitModN_iff (c n : Int) : unitModN c n = true ↔ 0 < c ∧ Int.gcd c n = 1 := by
   unfold unitModN
-  simp [and_assoc]
+  simp
 
 theorem basesAreUnits_iff (pk : PublicKey) (p : NonRevProof) :
     p.basesAreUnits pk = true ↔
